@@ -67,6 +67,19 @@ func (s symstr) String() string {
 	return sb.String()
 }
 
+// plain renders the string with `?` standing for each symbolic piece (messages, tags).
+func (s symstr) plain() string {
+	var sb strings.Builder
+	for _, p := range s.p {
+		if p.k == pkBytes {
+			sb.WriteString(p.s)
+		} else {
+			sb.WriteString("?")
+		}
+	}
+	return sb.String()
+}
+
 func symstrOf(v value) symstr {
 	switch x := v.(type) {
 	case string:
